@@ -115,7 +115,11 @@ impl Engine {
                                 0 => self.do_stake(&Caller::User(k), &Amt::Sci(5, 4), &Recip::Sender, None, &ExpSel::None, &Funds::Exact, None),
                                 1 => self.do_withdraw(&Caller::User(k), 0),
                                 2 => self.do_submit(&Caller::User(k), 2),
-                                _ => self.do_recover(&Caller::User(k), &RecMode::Plain, false),
+                                3 => self.do_recover(&Caller::User(k), &RecMode::Plain, false),
+                                // forced recovery of in-flight packets by a monitor / a user while halted: admin-only all the same
+                                4 => self.do_recover(&Caller::Monitor(0), &RecMode::Selected(vec![1], false), false),
+                                5 => self.do_recover(&Caller::User(k), &RecMode::Selected(vec![1, 0], false), false),
+                                _ => self.do_recover(&Caller::Admin, &RecMode::Selected(vec![0], false), false),
                             }
                         }
                         if self.viol.is_none() {
@@ -352,7 +356,7 @@ impl Engine {
             Expect::Err
         } else if self.oracle_blocks() || self.m.cfg.channel != self.ch.channel {
             Expect::Err
-        } else if (unusual && to_protocol) || self.prefix_foreign() {
+        } else if unusual || self.prefix_foreign() {
             Expect::Any
         } else {
             Expect::Ok
@@ -1192,6 +1196,10 @@ impl Engine {
             let dec_ok = receiver_arg.as_ref().map(|r| bech32_decode(r).map(|d| d.hrp == self.m.cfg.nprefix).unwrap_or(false)).unwrap_or(true);
             let mut set: Vec<u64> = self.m.refundable().filter(|p| p.receiver == receiver).map(|p| p.seq).collect();
             set.sort();
+            // refundable packets of several denoms wait for this receiver: which single-denom group (and, when
+            // paginated, which page of it) is taken is not fixed by C07; the re-sent set is then read from the queue
+            let full = set.clone();
+            let full_mixed = full.first().map(|f| full.iter().any(|i| self.m.packets[i].denom != self.m.packets[f].denom)).unwrap_or(false);
             if paginated == Some(true) {
                 if set.len() > 10 {
                     self.stats.flags.insert("recover_page_truncated");
@@ -1203,10 +1211,9 @@ impl Engine {
             } else if set.is_empty() {
                 (Expect::Err, vec!["C07", "C02", "C03"], vec![])
             } else {
-                let d0 = self.m.packets[&set[0]].denom.clone();
-                if set.iter().any(|i| self.m.packets[i].denom != d0) {
+                if full_mixed {
                     mixed = true;
-                    (Expect::Any, vec![], set)
+                    (Expect::Any, vec![], full)
                 } else if fail {
                     (Expect::Err, vec!["C07"], vec![])
                 } else {
@@ -1347,6 +1354,7 @@ impl Engine {
         self.m.halted = true;
         // raw diff: nothing but the config item, and inside it nothing but `stopped`
         let keys: Vec<String> = storage_before.diff_keys(&self.ch.w.storage).iter().map(|k| crate::store::key_namespace(k)).collect();
+        let keys: Vec<String> = keys.into_iter().filter(|k| crate::store::known_namespace(k)).collect();
         let only_config = keys.iter().all(|k| k == "config") && (was_halted || keys.len() == 1);
         self.chk(&["C10"], only_config && out.effects.is_empty() && before == self.ch.w.bank, || {
             format!("{what}: halting changed {:?} effects {:?}", keys, out.effects)
@@ -1429,7 +1437,7 @@ impl Engine {
         }
         // raw diff: config (only `stopped`) and state (only the three totals)
         let keys: Vec<String> = storage_before.diff_keys(&self.ch.w.storage).iter().map(|k| crate::store::key_namespace(k)).collect();
-        let ok_keys = keys.iter().all(|k| k == "config" || k == "state");
+        let ok_keys = keys.iter().all(|k| k == "config" || k == "state" || !crate::store::known_namespace(k));
         self.chk(&["C10"], ok_keys && before == self.ch.w.bank, || format!("{what}: resume changed {:?}", keys));
         if let (Some(a), Some(b)) = (storage_before.data.get(b"config".as_slice()), self.ch.w.storage.data.get(b"config".as_slice())) {
             let mut ja: serde_json::Value = serde_json::from_slice(a).unwrap_or_default();
@@ -1604,6 +1612,10 @@ impl Engine {
         } else if self.prefix_foreign() && new_prefix_len.is_none() {
             // addresses built under the chain prefix are not valid under the configured one
             Expect::Any
+        } else if next.staker == next.collector || next.fee_rate > 100_000 || !deadline_ok(self.ch.now_s(), next.batch_period) || !deadline_ok(self.ch.now_s(), next.unbonding) {
+            // well-formed as far as C14 goes, yet an implementation may refuse more than C14 lists (one account in two
+            // roles, a fee above 100 %, a period no deadline can be computed from)
+            Expect::Any
         } else {
             Expect::Ok
         };
@@ -1702,7 +1714,8 @@ impl Engine {
                 self.m.earliest = Some(now + WEEK);
             }
             OwnAct::Revoke => {
-                let exp = if sender != self.m.admin { Expect::Err } else { Expect::Ok };
+                // revoking when nothing is pending may succeed (nothing to do) or be refused
+                let exp = if sender != self.m.admin { Expect::Err } else if self.m.nominee.is_none() { Expect::Any } else { Expect::Ok };
                 let out = self.ch.execute(&sender, &[], ExecuteMsg::RevokeOwnershipTransfer {});
                 let what = format!("RevokeOwnershipTransfer by {sender}");
                 self.note(format!("{what} -> {}", out.ok));
